@@ -137,6 +137,14 @@ pub fn dump_case(idx: u64, items: &[Item], opt: u64, flags: Value) -> Value {
         feed_cloning(&mut w, items, &writer::basic::Cli { verbose: 0, color: Coloring::Never }, clone_at);
         buf.text()
     });
+    // the terminal reporter with coloring on: transient lines for started steps, erased again
+    // (cursor up + erase line) when the result is known
+    let colored = guarded(|| {
+        let buf = sink();
+        let mut w = writer::Basic::new::<TW>(buf.clone(), Coloring::Always, verbosity);
+        feed_cloning(&mut w, items, &writer::basic::Cli { verbose: 0, color: Coloring::Always }, clone_at);
+        buf.text()
+    });
     // the terminal reporter as `Basic::stdout()` builds it: with the summary at the end
     let summarized = guarded(|| {
         use cucumber::WriterExt as _;
@@ -175,6 +183,7 @@ pub fn dump_case(idx: u64, items: &[Item], opt: u64, flags: Value) -> Value {
         "flags": flags,
         "facts": facts(&norm),
         "basic": basic, "libtest": libtest, "json": jsonr, "junit": junit,
+        "colored": colored,
         "summarized": summarized, "expected_summary": crate::oracles_stream::expected_summary(items),
     })
 }
